@@ -562,3 +562,66 @@ Proof.
            | |- context [match ?x with _ => _ end] => destruct x; try discriminate
            end.
 Qed.
+
+(* ---- the unguarded route to a CoreDID (TryFrom<BaseDIDUrl>, hence serde): outside K_pct it accepts only what CoreDID::parse accepts ---- *)
+Lemma drop_while_len p l : (length (drop_while p l) <= length l)%nat.
+Proof. induction l as [|c l IH]; [cbn; lia|]. cbn [drop_while]. destruct (p c); cbn [length]; lia. Qed.
+Lemma drop_while_same p l : length (drop_while p l) = length l -> drop_while p l = l.
+Proof.
+  destruct l as [|c l]; [reflexivity|]. cbn [drop_while]. destruct (p c); [|reflexivity].
+  intros H. pose proof (drop_while_len p l). cbn [length] in H. lia.
+Qed.
+Lemma trim_len l : (length (trim l) <= length l)%nat.
+Proof.
+  unfold trim. rewrite rev_length. pose proof (drop_while_len ctrl_or_space (rev (drop_while ctrl_or_space l))).
+  rewrite rev_length in H. pose proof (drop_while_len ctrl_or_space l). lia.
+Qed.
+Lemma trim_same l : length (trim l) = length l -> trim l = l.
+Proof.
+  unfold trim. rewrite rev_length. intros H.
+  pose proof (drop_while_len ctrl_or_space (rev (drop_while ctrl_or_space l))) as A. rewrite rev_length in A.
+  pose proof (drop_while_len ctrl_or_space l) as B.
+  assert (drop_while ctrl_or_space l = l) as E1 by (apply drop_while_same; lia).
+  rewrite E1 in *. rewrite drop_while_same; [apply rev_involutive|]. rewrite rev_length. lia.
+Qed.
+Lemma existsb_drop_while p q l : existsb q l = false -> existsb q (drop_while p l) = false.
+Proof. induction l as [|c l IH]; [reflexivity|]. cbn [existsb drop_while]. intros H. apply orb_false_elim in H as [H1 H2]. destruct (p c); [exact (IH H2)|]. cbn [existsb]. rewrite H1, H2. reflexivity. Qed.
+Lemma no_pct_trim l : no_pct l = true -> no_pct (trim l) = true.
+Proof.
+  unfold no_pct, trim. intros H. apply negb_true_iff in H. apply negb_true_iff.
+  assert (forall x, existsb (N.eqb 37) x = false -> existsb (N.eqb 37) (rev x) = false) as R.
+  { intros x Hx. destruct (existsb (N.eqb 37) (rev x)) eqn:E; [|reflexivity]. apply existsb_exists in E as [y [Hy Ey]]. apply in_rev in Hy.
+    assert (existsb (N.eqb 37) x = true) by (apply existsb_exists; eauto). congruence. }
+  apply R. apply existsb_drop_while. apply R. apply existsb_drop_while. exact H.
+Qed.
+
+Theorem core_did_from_base_sound s m i : no_pct s = true -> core_did_from_base s = Ok (m, i) -> core_did_parse s = Ok (m, i).
+Proof.
+  intros NP H. unfold core_did_from_base in H.
+  assert (trim s = s) as T.
+  { apply obind_ok in H as [c [P V]]. unfold tp_parse in P. apply obind_ok in P as [c0 [Po P]].
+    apply obind_ok in P as [m0 [_ P]]. destruct (match m0 with [] => true | _ => false end); [discriminate|].
+    apply obind_ok in P as [i0 [_ P]]. destruct (match i0 with [] => true | _ => false end); [discriminate|]. inversion P; subst c0; clear P.
+    destruct (offsets_full (trim s) c (no_pct_trim s NP) Po) as [m' [i' [p [oq [of [Es [Om [Oi [Op [Oq Of]]]]]]]]]].
+    (* a plain DID has no query and no fragment, and the path slice of the STORED text must be empty *)
+    unfold check_validity in V.
+    apply obind_ok in V as [m1 [_ V]]. destruct (negb (valid_method_name m1)); [discriminate|].
+    apply obind_ok in V as [i1 [_ V]]. destruct (negb (valid_method_id i1)); [discriminate|].
+    apply obind_ok in V as [p1 [Hp V]]. apply obind_ok in V as [f1 [Hf V]]. apply obind_ok in V as [q1 [Hq V]].
+    destruct p1 as [|x p1']; [|discriminate]. destruct f1 as [f1|]; [discriminate|]. destruct q1 as [q1|]; [discriminate|]. clear V.
+    assert (oq = None) as ->.
+    { destruct oq as [q|]; [|reflexivity]. unfold tp_query in Hq. rewrite Oq in Hq. destruct (o_frag c); apply obind_ok in Hq as [? [_ X]]; discriminate. }
+    assert (of = None) as ->.
+    { destruct of as [f|]; [|reflexivity]. unfold tp_fragment in Hf. rewrite Of in Hf. apply obind_ok in Hf as [? [_ X]]. discriminate. }
+    unfold tp_path in Hp. rewrite Oq, Of in Hp. unfold slice_from in Hp. apply slice_ok in Hp as [[L1 _] Ep].
+    (* [] = firstn (len - o_path) (skipn o_path s): the stored text is no longer than o_path <= length of the trimmed text *)
+    assert (length s <= o_path c)%nat as L2.
+    { destruct (le_lt_dec (length s) (o_path c)) as [X|X]; [exact X|]. exfalso.
+      assert (length (firstn (length s - o_path c) (skipn (o_path c) s)) = (length s - o_path c)%nat) as Lf.
+      { rewrite firstn_length, skipn_length. lia. }
+      rewrite <- Ep in Lf. cbn [length] in Lf. lia. }
+    assert (o_path c <= length (trim s))%nat as L3.
+    { rewrite Op. rewrite Es at 1. rewrite !app_length. cbn [length optpre]. lia. }
+    apply trim_same. pose proof (trim_len s). lia. }
+  unfold core_did_parse. rewrite T, list_eqb_refl'. cbn [negb]. rewrite (ends_with_pct_no_pct _ NP). exact H.
+Qed.
